@@ -154,14 +154,19 @@ def shadow(modname: str, rebind: dict | None = None, cuts: dict | None = None, c
     # The body is executed statement by statement so that the models are (re)bound right
     # after the module's own import statements: default arguments captured at `def` time
     # (e.g. `def encodeInt(value, bytechr=bytechr, pack=struct.pack)`) then see the models.
+    # the module's own definitions that a rebind replaces (a function stubbed by its contract
+    # while it is itself the target) stay reachable in __pyvc_orig__: captured right after the
+    # defining statement, before a later import / if / try statement re-applies the rebinding
+    orig = {}
     for stmt in tree.body:
         code = compile(ast.Module(body=[stmt], type_ignores=[]), path, "exec")
         exec(code, mod.__dict__)
+        if rebind and isinstance(stmt, (ast.FunctionDef, ast.ClassDef)) and stmt.name in rebind:
+            orig[stmt.name] = mod.__dict__[stmt.name]
         if rebind and isinstance(stmt, (ast.Import, ast.ImportFrom, ast.Try, ast.If)):
             mod.__dict__.update(rebind)
-    # the module's own definitions that a rebind replaces (a function stubbed by its contract
-    # while it is itself the target) stay reachable here
     mod.__pyvc_orig__ = {k: mod.__dict__[k] for k in (rebind or {}) if k in mod.__dict__}
+    mod.__pyvc_orig__.update(orig)
     if rebind:
         mod.__dict__.update(rebind)
     mod.__pyvc_dropped__ = dropped
